@@ -1,4 +1,5 @@
 use super::prelude::*;
+use std::sync::atomic::AtomicU8;
 use tokio::{
     sync::mpsc::Receiver,
     time::{timeout_at, Instant, Duration},
@@ -17,7 +18,8 @@ where
     next_deadline: Option<Instant>,
     deferred_index_dump_info: Option<Box<DeferredEventData>>,
     index_dump_task: Option<JoinHandle<()>>,
-    fsync_task: Option<JoinHandle<()>>
+    fsync_task: Option<JoinHandle<()>>,
+    pending_notifications: Arc<AtomicU8>,
 }
 
 struct DeferredEventData {
@@ -38,10 +40,12 @@ where
     pub(crate) fn new(
         receiver: Receiver<Msg>,
         inner: Arc<Inner<K>>,
+        pending_notifications: Arc<AtomicU8>,
     ) -> Self {
         Self {
             inner,
             receiver,
+            pending_notifications,
             next_deadline: None,
             deferred_index_dump_info: None,
             index_dump_task: None,
@@ -88,7 +92,9 @@ where
     async fn tick(&mut self) -> Result<TickResult> {
         match self.receiver.recv().await {
             Some(msg) => {
-                self.process_msg(msg).await?;
+                let result = self.process_msg(msg).await;
+                self.process_pending_notifications().await?;
+                result?;
                 Ok(TickResult::Continue)
             },
             None => Ok(TickResult::Stop)
@@ -100,7 +106,9 @@ where
         let deadline = deadline + DEFERRED_PROCESS_DEADLINE_EPS;
         match timeout_at(deadline, self.receiver.recv()).await {
             Ok(Some(msg)) => {
-                self.process_msg(msg).await?;
+                let result = self.process_msg(msg).await;
+                self.process_pending_notifications().await?;
+                result?;
                 Ok(TickResult::Continue)
             },
             Ok(None) => {
@@ -113,6 +121,20 @@ where
                 Ok(TickResult::Continue)
             }
         }
+    }
+
+    /// Processes notifications that did not fit into the channel
+    async fn process_pending_notifications(&mut self) -> Result<()> {
+        let pending = self.pending_notifications.swap(0, Ordering::SeqCst);
+        let mut result = Ok(());
+        for optype in [OperationType::TryUpdateActiveBlob, OperationType::TryFsyncData, OperationType::DeferredDumpBlobIndexes] {
+            if pending & (1 << (optype.clone() as u8)) != 0 {
+                if let Err(e) = self.process_msg(Msg::new(optype, None)).await {
+                    result = Err(e);
+                }
+            }
+        }
+        result
     }
 
     /// Updates next deadline, chosing the closest between passed and laready set
